@@ -1,4 +1,5 @@
 import Driver.Framing
+import Driver.C03Prod
 namespace DriverC03
 open Proto Framing DriverFraming
 
@@ -115,6 +116,7 @@ def handle (case obs : List String) : String × String :=
   match case with
   | "resp" :: _ => (String.intercalate " " obs, handleResp case obs)
   | "req" :: _ => (String.intercalate " " obs, handleReq case obs)
+  | "prod" :: _ => DriverC03Prod.handle case obs
   | _ =>
   match model case, parseEncCase case with
   | some m, some c =>
